@@ -358,6 +358,9 @@ class RemoteWorker(Worker, metaclass=RemoteWorkerMeta):
             return not alive
 
     def _get_result(self):
+        if self._result is None and self._started and not self._remote_side and not self._child.is_alive():
+            # the frontend thread is gone without receiving the final result (e.g. the result cannot be rebuilt on this side)
+            self._result = (False, None)
         return self._result
 
     #
@@ -545,7 +548,7 @@ class RemoteWorker(Worker, metaclass=RemoteWorkerMeta):
         self._aux_socket_my, self._aux_socket_ctrl = None, None
 
         try:
-            result = None
+            result = (False, None) # reported if the worker is ended by something which is not an Exception
 
             if is_windows():
                 # Extra pair of sockets to release the backend of the persistent worker
